@@ -39,10 +39,12 @@ ASSUMPTIONS = [
     "a fresh process image = a fork of a process that has only imported ampform/qrules (no formulate call before)",
     "the configuration of a builder is the result of its operation history: last value per field, dynamics assignments"
     " replayed in order, permutation of topologies is sticky",
-    "digest = sha256 over srepr of intensity and of the ordered (key, value) lists of the four mappings + transitions",
+    "models from the fresh process are transported by pickle and compared attribute-wise with == in the checking"
+    " process (intensity, ordered item lists of the four mappings, reaction_info); the two formulations inside one"
+    " process are additionally compared by an srepr digest",
 ]
 BUDGET = {
-    "quick": {"examples": 400, "shards": 16, "cap_s": 150, "shrink_calls": 40, "shrink_s": 120, "steps": 16, "case_timeout_s": 120},
+    "quick": {"examples": 560, "shards": 16, "cap_s": 150, "shrink_calls": 40, "shrink_s": 120, "steps": 16, "case_timeout_s": 120},
     "thorough": {"examples": 1600, "shards": 16, "cap_s": 2400, "shrink_calls": 100, "shrink_s": 300, "steps": 22, "case_timeout_s": 600},
 }
 HASHSEEDS = ["0", "1", "4242", "random"]
@@ -84,14 +86,38 @@ def _stop_servers() -> None:
             pass
 
 
-def fresh_digest(rdesc, config, relabel, hashseed: str) -> dict:
+def fresh_model(rdesc, config, relabel, hashseed: str) -> dict:
+    """{"model": HelicityModel} formulated in a fresh process image and transported by pickle
+    (so that it is compared with ``==`` in this process: sympy's canonical argument order of
+    Add/Mul is process-specific, a string comparison of srepr would demand more than equality),
+    or {"error": ...}."""
+    import base64  # noqa: PLC0415
+    import pickle  # noqa: PLC0415
+
     key = harness.canonical([rdesc, config, relabel, hashseed])
     if key not in _MEMO:
         proc = _server(hashseed)
-        proc.stdin.write(json.dumps({"rdesc": rdesc, "config": config, "relabel": relabel}) + "\n")
+        proc.stdin.write(json.dumps({"rdesc": rdesc, "config": config, "relabel": relabel, "want": "pickle"}) + "\n")
         proc.stdin.flush()
-        _MEMO[key] = json.loads(proc.stdout.readline())
+        answer = json.loads(proc.stdout.readline())
+        if "pickle" in answer:
+            answer = {"model": pickle.loads(base64.b64decode(answer["pickle"]))}  # noqa: S301
+        _MEMO[key] = answer
     return _MEMO[key]
+
+
+def compare_models(a, b) -> dict:
+    """Attribute -> "order" | "content" for every attribute in which the models differ."""
+    out = {}
+    if a.intensity != b.intensity:
+        out["intensity"] = "content"
+    for name in ("amplitudes", "parameter_defaults", "kinematic_variables", "components"):
+        la, lb = list(getattr(a, name).items()), list(getattr(b, name).items())
+        if la != lb:
+            out[name] = "order" if dict(la) == dict(lb) else "content"
+    if a.reaction_info != b.reaction_info:
+        out["reaction_info"] = "content"
+    return out
 
 
 # ----------------------------------------------------------------------- history executor
@@ -175,33 +201,38 @@ class History:
         nontrivial = len(set(others)) >= 2
         self.nontrivial = self.nontrivial or nontrivial
         try:
-            d1 = model_digest(st_["builder"].formulate())
-            d2 = model_digest(st_["builder"].formulate())
+            m1 = st_["builder"].formulate()
+            m2 = st_["builder"].formulate()
         except ValueError as exc:
             if "Angular momentum is not defined" not in str(exc):
                 self.result = violation("raises:formulate", nontrivial, sorted(self.labels), message=str(exc)[:200])
                 return
-            d1 = d2 = {"error": "form_factor_needs_L"}
+            m1 = m2 = None
             self.labels.add("form_factor_contract")
         st_["formulated"].append(key)
         self.checked += 1
-        if d1 != d2:
-            self.result = violation(
-                "formulate_twice_differs", nontrivial, sorted(self.labels), differing=_diff(d1, d2), builder=b
-            )
-            return
+        if m1 is not None:
+            diff = compare_models(m1, m2)
+            if diff or model_digest(m1) != model_digest(m2):
+                self.result = violation(
+                    "formulate_twice_differs", nontrivial, sorted(self.labels), differing=diff or {"digest": "content"}, builder=b
+                )
+                return
         for hs in HASHSEEDS:
-            fresh = fresh_digest(st_["rdesc"], cfg, st_["relabel"], hs)
+            fresh = fresh_model(st_["rdesc"], cfg, st_["relabel"], hs)
             if "error" in fresh:
-                if "Angular momentum is not defined" in fresh["error"] and "error" in d1:
+                if "Angular momentum is not defined" in fresh["error"] and m1 is None:
                     continue
                 self.result = violation(
                     "fresh_process_fails", nontrivial, sorted(self.labels), hashseed=hs, error=fresh["error"][:200],
-                    in_process_ok="error" not in d1,
+                    in_process_ok=m1 is not None,
                 )
                 return
-            if fresh != d1:
-                diff = _diff(d1, fresh)
+            if m1 is None:
+                self.result = violation("fresh_process_succeeds_where_builder_raised", nontrivial, sorted(self.labels), hashseed=hs)
+                return
+            diff = compare_models(m1, fresh["model"])
+            if diff:
                 self.result = violation(
                     "differs_from_fresh_process", nontrivial, sorted(self.labels), hashseed=hs, builder=b,
                     differing=diff, order_only=all(v == "order" for v in diff.values()),
@@ -232,7 +263,15 @@ def _diff(a: dict, b: dict) -> dict:
 # ----------------------------------------------------------------------- Hypothesis machine
 def _reaction_a(tier):
     ns = (3, 3, 3, 4) if tier == "thorough" else (3,)
-    return reaction_strategy(n_final=ns, max_topos=3, spin2_max=2, spin_k_max=1, max_transitions=24, allow_identical=True)
+    base = reaction_strategy(n_final=ns, max_topos=3, spin2_max=2, spin_k_max=1, max_transitions=24, allow_identical=True)
+
+    def all_parity_conserving(args):
+        r, force = args
+        if force:  # coefficient sharing between parity partners makes the model sensitive to naming state
+            r = dict(r, topos=[dict(td, pc=[True] * len(td["pc"])) for td in r["topos"]])
+        return r
+
+    return st.tuples(base, st.booleans()).map(all_parity_conserving)
 
 
 def _reaction_b(tier):
@@ -267,6 +306,35 @@ def machine(tier, report, gate):
         @rule(b=st.integers(0, 2), field=st.sampled_from(["scalar_initial", "helicity_couplings", "parent_hel", "child_hel"]), value=st.booleans())
         def set_flag(self, b, field, value):
             self.do(["set", b, field, value])
+
+        @rule(
+            b=st.integers(0, 2),
+            first=st.sampled_from(["parent_hel", "parent_hel", "child_hel", "child_hel", "helicity_couplings", "scalar_initial"]),
+            second=st.sampled_from(["parent_hel", "parent_hel", "child_hel", "child_hel", "helicity_couplings", "scalar_initial"]),
+            second_value=st.booleans(),
+            restore_second=st.booleans(),
+        )
+        def detour(self, b, first, second, second_value, restore_second):
+            """Flip a flag, touch another one, flip the first back: a detour through other
+            configurations must not leave traces."""
+            if not (self.active and self.h is not None and not self.h.dead):
+                return
+            cfg = self.h.builders[b]["config"]
+
+            def current(field):
+                value = cfg[field]
+                if value is None:  # child_hel default of the formalism
+                    value = self.h.builders[b]["rdesc"]["formalism"] == "helicity"
+                return bool(value)
+
+            v1, v2 = current(first), current(second)
+            self.do(["set", b, first, not v1])
+            if second != first:
+                self.do(["set", b, second, second_value])  # may re-assign the current value
+            self.do(["set", b, first, v1])
+            if second != first and restore_second and second_value != v2:
+                self.do(["set", b, second, v2])
+            self.do(["formulate", b])
 
         @rule(b=st.integers(0, 2), kind=st.sampled_from(["name", "particle", "node"]), tgt=st.integers(0, 7),
               bidx=st.integers(0, len(BUILDER_NAMES) - 1))
